@@ -508,6 +508,92 @@ def _corrupt_case(args):
     return cnt, out
 
 
+def _multichannel_case(args):
+    """Files that use several fluorescence channels, also with a gap
+    (1 + 3): the writer's own output is clean, the exported and the
+    compressed copy too, and every wrong channel / laser count (lower and
+    higher than recorded) is reported."""
+    chans, seed, scratch = args
+    import dclab
+    from dclab import cli
+    d = scratch / f"c13_mc_{os.getpid()}_{''.join(map(str, chans))}"
+    if d.exists():
+        shutil.rmtree(d)
+    d.mkdir()
+    out = []
+    cnt = 0
+    k = len(chans)
+    case = {"kind": "multichannel", "chans": list(chans), "seed": seed}
+    try:
+        gen.register_user_features()
+        ev = gen.make_events(N, seed=seed, special=False)
+        ev.pop(gen.USER_FEAT)
+        meta = gen.complete_meta(N)
+        fl1 = ev.pop("fl1_max")
+        tr = ev.pop("trace")
+        ev["trace"] = {}
+        m = meta["fluorescence"]
+        for key in ("channel 1 name", "laser 1 lambda", "laser 1 power"):
+            m.pop(key)
+        for c in chans:
+            ev[f"fl{c}_max"] = fl1 + c
+            ev["trace"][f"fl{c}_raw"] = tr["fl1_raw"] + c
+            ev["trace"][f"fl{c}_median"] = tr["fl1_median"] + c
+            m[f"channel {c} name"] = f"FL{c}"
+            m[f"laser {c} lambda"] = 400.0 + 50 * c
+            m[f"laser {c} power"] = 5.0
+        m["channel count"] = k
+        m["laser count"] = k
+        m["channels installed"] = 3
+        m["lasers installed"] = 3
+        base = d / "base.rtdc"
+        gen.write_rtdc(base, ev, meta=meta, logs={"vf-log": ["a line"]})
+        exp = d / "exported.rtdc"
+        with dclab.new_dataset(base) as ds:
+            ds.export.hdf5(exp, features=ds.features_innate)
+        comp = d / "compressed.rtdc"
+        cli.compress(path_in=base, path_out=comp)
+        for route, p in (("writer", base), ("export", exp),
+                         ("compress", comp)):
+            cnt += 1
+            viol, aler, info = run_checker(p)
+            if viol:
+                out.append(violation(
+                    CK, "own-output-flagged", case,
+                    f"channels {chans} via {route}: {viol}",
+                    {"route": route, "chans": "gap" if chans == (1, 3)
+                     else "contiguous"}))
+        clean = set(run_checker(base)[0])
+        for key in ("channel count", "laser count"):
+            for v in (0, 1, 2, 3, 4):
+                if v == k:
+                    continue
+                cnt += 1
+                q = d / "c.rtdc"
+                shutil.copy(base, q)
+                with h5py.File(q, "a") as h5:
+                    h5.attrs[f"fluorescence:{key}"] = v
+                try:
+                    viol = set(run_checker(q)[0])
+                except BaseException as e:
+                    out.append(violation(
+                        CK, "checker-crashed", case,
+                        f"{key}={v} with channels {chans}: "
+                        f"{type(e).__name__}: {e}",
+                        {"exc": type(e).__name__, "what": key}))
+                    continue
+                if not (viol - clean):
+                    out.append(violation(
+                        CK, "inconsistency-not-reported", case,
+                        f"'{key}' = {v} in a file that records channels "
+                        f"{chans}: violations {sorted(viol)}",
+                        {"what": key, "dir": "lower" if v < k
+                         else "higher"}))
+    finally:
+        shutil.rmtree(d, ignore_errors=True)
+    return cnt, out
+
+
 def run(ctx):
     scratch = ctx.scratch
     routes = ["writer", "export-hdf5", "export-filtered",
@@ -541,6 +627,9 @@ def run(ctx):
                if compatible(i, j)]
     res += par.pmap(_corrupt_case, [
         (flpairs[k::8], False, ctx.seed, scratch, 3) for k in range(8)])
+    res += par.pmap(_multichannel_case, [
+        (ch, ctx.seed, scratch)
+        for ch in ((1, 2), (1, 3), (2, 3), (1, 2, 3))])
     pchunks = [pairs[k::16] for k in range(16)]
     res += par.pmap(_corrupt_case, [(c, False, ctx.seed, scratch)
                                     for c in pchunks if c])
@@ -568,6 +657,9 @@ def run(ctx):
 
 
 def replay(case, ctx):
+    if case["kind"] == "multichannel":
+        return _multichannel_case((tuple(case["chans"]), case["seed"],
+                                   ctx.scratch))[1]
     if case["kind"] == "clean":
         _, vs = _clean_case((case["route"], case["seed"], ctx.scratch))
         return vs
